@@ -134,7 +134,8 @@ def mentions_recursion(x):
 
 
 def mro_names(cls):
-    return [c.__name__ for c in cls.__mro__]
+    # (two classes may share a __name__: the catalogue's twin carries its own tag)
+    return [c.__dict__.get('_sim_tag', c.__name__) for c in cls.__mro__]
 
 
 def outcome(res, idmap=None, with_text=True):
